@@ -365,6 +365,7 @@ def judge_listing(s, keys, prefixes, suffix, page_size, default_kw=False):
 
 
 def run(s):
+    K.hostile_callers(s)
     q = s.tier == 'quick'
     tmpdir = tempfile.mkdtemp(prefix='verif-c18-')
     try:
